@@ -247,9 +247,9 @@ func c15f(clause, trigger, format string, a ...any) *check.Finding {
 type authTarget struct {
 	Name   string
 	Addr   string
-	Secret func() string                      // the secret the server currently holds ("" = none)
+	Secret func() string                       // the secret the server currently holds ("" = none)
 	Inner  func() (entered float64, err error) // monotone counter of protected-handler entries
-	Gauge  func() (float64, error)            // ws_connected_clients
+	Gauge  func() (float64, error)             // ws_connected_clients
 }
 
 type c15stats struct {
